@@ -9,9 +9,9 @@ from .. import gen
 from ..canon import Abs
 from . import common as K
 
-ID_POOL = [2, 7, 9, 10, 11, 99, 100, 101, 999, 1000, 1001, 10000, 123456,
+ID_POOL = [-12, -7, 2, 7, 9, 10, 11, 12, 99, 100, 101, 999, 1000, 1001, 10000, 123456,
            2 ** 53, 2 ** 53 + 1, 2 ** 53 + 2, 2 ** 53 + 3, 10 ** 20, 10 ** 20 + 1]
-PADDED = {7: '007', 10: '0010', 99: '099'}
+PADDED = {7: '007', 10: '0010', 99: '099', 9: '+9', 11: ' 11 ', -7: '-07', 12: '+012'}      # lexical forms of xs:integer
 
 META = {
     'rule': ('Message lists with distinct message IDs of mixed digit counts (2, 7, 9, 10, 99, 100, 1000, ..., some '
